@@ -827,6 +827,10 @@ def ops_eval(ctx, R):
             mn = name[5:]
             if R.create is not None and mn == R.create.name:
                 counter[0] += 1
+                # what the builder was handed, in its own parameter order (conditions, actions, match type)
+                bound = dict(zip(R.create.params[1:], args))
+                bound.update({k_: v_ for k_, v_ in kw.items() if k_})
+                keep["created_with"] = {k_: (v_.v if isinstance(v_, fd.Const) else "?") for k_, v_ in bound.items()}
                 # building a filter registers the extensions it needs: a visible effect on the set
                 rq = st.env.get("%s.requires" % selfp)
                 if isinstance(rq, fd.Const) and isinstance(rq.v, list):
@@ -946,6 +950,47 @@ def ops_eval(ctx, R):
                    "getfilter hands out the `if false` wrapper (or nothing) for a disabled filter")
         for nm, want in (("A", False), ("B", True), ("C", False)):
             expect("O5", "is_filter_disabled", repr(nm), run("is_filter_disabled", nm), "return", want, base, "the state reported differs from the rendering")
+        # ---- a filter whose content is not an `if` (a bare action loaded from a script, or put there by replacefilter): the guard that
+        # disablefilter adds must be recognised as a guard whatever it holds
+        K = fd.Const(fd.MList([fd.MDict(name="K", description="", content=cmd("KeepCommand", "K0"), enabled=True)]))
+        r1 = run("disablefilter", "K", _after=K)
+        if r1 is None:
+            raise _Undecided()
+        K_off = ("K", False, ("wrapped", (("plain", "K0"),)), "")
+        if (r1[0], r1[1], r1[2][:1]) != ("return", True, [K_off]):
+            problems.append(("O5", "disablefilter:bare-action", "disablefilter('K') on a filter whose content is the bare action `keep;` %s and leaves %r; "
+                             "expected True and the filter wrapped in `if false`, flag off" % (
+                                 ("returns %r" % r1[1]) if r1[0] == "return" else "raises", r1[2][:1]), "flag and rendering disagree"))
+        else:
+            kept_ = keep["last"]
+            r2 = run("is_filter_disabled", "K", _after=kept_)
+            r3 = run("disablefilter", "K", _after=kept_)
+            if r2 is None or r3 is None:
+                raise _Undecided()
+            if r2[:2] != ("return", True) or (r3[0], r3[1], r3[2][:1]) != ("return", False, [K_off]):
+                problems.append(("O5", "disablefilter:bare-action-twice", "after disablefilter('K') on a filter whose content is the bare action `keep;`, "
+                                 "is_filter_disabled('K') answers %r and a second disablefilter('K') answers %r leaving %r; expected True, then False "
+                                 "with one `if false` wrapper" % (r2[1], r3[1], r3[2][:1]),
+                                 "the guard around a filter that is not an `if` is not recognised: the filter is wrapped twice and enablefilter "
+                                 "leaves it disabled in the rendering"))
+        # ---- the caller's match type reaches the builder (anyof is only the default)
+        for op, argv in (("addfilter", ("D", fd.Unknown("conds"), fd.Unknown("acts"), "allof")),
+                         ("updatefilter", ("A", "A", fd.Unknown("conds"), fd.Unknown("acts"), "allof")),
+                         ("updatefilter", ("B", "B2", fd.Unknown("conds"), fd.Unknown("acts"), "allof"))):
+            f_ = m[op]
+            mtp = [p_ for p_ in f_.params if "matchtype" in p_.lower() or p_ == "match_type"]
+            cmt = [p_ for p_ in (R.create.params if R.create is not None else []) if "matchtype" in p_.lower() or p_ == "match_type"]
+            if len(mtp) != 1 or len(cmt) != 1 or f_.params[1:].index(mtp[0]) != len(argv) - 1:
+                continue
+            keep.pop("created_with", None)
+            got_ = run(op, *argv)
+            if got_ is None:
+                raise _Undecided()
+            cw = keep.get("created_with") or {}
+            if cw and cw.get(cmt[0], "anyof") != "allof":
+                problems.append(("O2" if op == "updatefilter" else "O1", "%s:matchtype" % op, "%s(..., %s='allof') builds the filter with %s=%r: "
+                                 "the caller's match type does not reach the builder" % (op, mtp[0], cmt[0], cw.get(cmt[0], "<default>")),
+                                 "an `allof` filter silently becomes `anyof` when it is updated"))
         # ---- update / replace
         newcmd = fd.Rec("IfCommand", tag="NEW", children=fd.MList(), arguments=fd.MDict({"test": fd.Rec("HeaderCommand", tag="tN", children=fd.MList(), arguments=fd.MDict())}))
         for op, extra in (("updatefilter", lambda old, new: (old, new, fd.Unknown("conds"), fd.Unknown("acts"))),
